@@ -3,6 +3,7 @@ import NflowsModel.Lemmas.Glue
 import NflowsModel.Lemmas.Utils
 import NflowsModel.Lemmas.SplineTotal
 import NflowsModel.Lemmas.RQWhole
+import NflowsModel.Lemmas.RQInverseWhole
 import Mathlib.Tactic
 /-!
 # C17 — out-of-domain inputs are rejected, in-domain inputs never fail
@@ -124,5 +125,13 @@ theorem rq_forward_returns_bin (e : Float → ℝ) (c : RQCfg) (uw uh ud : List 
 /-! non-vacuity: concrete accepted / rejected inputs in binary64 -/
 example : expT floatX true (0.0 : Float) = .error .outsideDomain := by decide +kernel
 example : ∃ r, sigmoidT floatX (1.0 : Float) 1e-6 true (1.0 : Float) = .ok r := ⟨_, rfl⟩
+
+/-- **in-domain inputs never fail, RQ inverse**: for every `y ∈ [bottom, top]` the executed inverse program returns a
+    value; in particular its `discriminant >= 0` assertion (rational_quadratic.py) never fires over the reals. -/
+theorem rq_inverse_in_domain_total (e : Float → ℝ) (c : RQCfg) (uw uh ud : List ℝ) (hv : RQWhole.RQValid e c uw uh ud)
+    (y : ℝ) (hy0 : e c.box.bottom ≤ y) (hy1 : y ≤ e c.box.top) :
+    (∃ r, rqSpline (NF.realX e) c uw uh ud true y = .ok r) ∧
+    0 ≤ RQInverseWhole.binDisc e c uw uh ud (RQInverseWhole.idxI e c uh y) y :=
+  ⟨⟨_, RQInverseWhole.exec_ok hv y hy0 hy1⟩, RQInverseWhole.disc_nonneg hv y hy0 hy1⟩
 
 end Properties.C17
